@@ -414,6 +414,16 @@ def keyword_boundaries(ctx, cr):
                 for bi, t in M.iter_calls(f):
                     out.add(M.norm_path(t["fn"].get("path", "")))
         return out
+    # line breaks / blanks inside list and map literals: the element separator is the layout-tolerant separated_by(','), the brackets
+    # are preceded_by / followed_by (a bare char(',') rejects `['a' , 'b']` and a comma at the start of a line)
+    for key in (P + "parse_list", P + "parse_map"):
+        if key not in cr.fns:
+            ctx.lost("R-C14-list-layout", "R-C14-list-layout:%s" % key.split("::")[-1], key)
+            continue
+        items = fnitems(key)
+        ok = P + "separated_by" in items
+        ctx.ob("R-C14-list-layout", "R-C14-list-layout:%s" % key.split("::")[-1], ok, "%s separates its elements with %s" % (key.split("::")[-1], "separated_by(',') (blanks, line breaks and comments allowed around the comma)" if ok else
+               "a bare separator %s: layout around the comma is no longer free" % sorted(x.split("::")[-1] for x in items if "nom::character" in x)), fn=cr.fns[key])
     for key, term, seps in ((P + "or_join", P + "or_term", (P + "one_or_more_ws_or_comment",)),
                             (P + "not", None, ("nom::character::complete::space1", "nom::character::complete::multispace1", P + "one_or_more_ws_or_comment"))):
         if key not in cr.fns:
